@@ -385,3 +385,18 @@ Fixpoint select (g : Z) (gates : list Z) (body : list stmt) : list stmt :=
   | t :: gr, s :: br => if (t <? g)%Z then s :: select g gr br else select g gr br
   | _, _ => []
   end.
+
+(* single owner plus the deep-copy assignment `x = y` between two declared lists
+   (__redu_list_assign): still no shared buffers, but Python's aliasing is lost *)
+Definition use_ok2 (decl : list name) (s : stmt) : bool :=
+  use_ok decl s ||
+  match s with
+  | LAssignVar x y => existsb (Z.eqb x) decl && existsb (Z.eqb y) decl
+  | _ => false
+  end.
+
+Definition owner_or_clone_seq (setup : list stmt) (bodies : list (list stmt)) : bool :=
+  match setup_ok [] setup with
+  | Some decl => forallb (forallb (use_ok2 decl)) bodies
+  | None => false
+  end.
